@@ -108,6 +108,39 @@ def evaluate(sid):
         shutil.rmtree(d, ignore_errors=True)
 
 
+def write_results():
+    rows = []
+    for sid in sorted(os.listdir(SEEDED)):
+        mp = os.path.join(SEEDED, sid, "meta.json")
+        if not os.path.exists(mp):
+            continue
+        m = json.load(open(mp))
+        sc = m.get("static_checks", {})
+        nv = sc.get("new_violations", {})
+        own = m.get("property")
+        own_hit = ", ".join(sorted({k.split(":")[0] for k in nv.get(own, [])}))
+        others = "; ".join("%s: %s" % (p, ", ".join(sorted({k.split(":")[0] for k in ks}))) for p, ks in sorted(nv.items()) if p != own)
+        status = "detected" if nv.get(own) else ("detected (other property only)" if nv else
+                                                 ("not statically detectable" if m.get("not_statically_detectable") else "MISSED"))
+        rows.append((sid, own, m.get("title", "")[:90], m.get("needs_to_manifest", "")[:160].replace("\n", " "), status, own_hit, others))
+    with open(os.path.join(SEEDED, "RESULTS.md"), "w") as fh:
+        fh.write("# Seeded breakages: which checks catch which\n\n")
+        fh.write("Generated by `selftest/seeded.py eval` (all 20 quick checks run on a scratch copy with the seed applied). "
+                 "`rules (own property)` = rule ids reporting a new violation under the seed's own property.\n\n")
+        fh.write("| seed | property | change | needs to manifest | verdict | rules (own property) | also reported under |\n|---|---|---|---|---|---|---|\n")
+        for r in rows:
+            fh.write("| %s |\n" % " | ".join(x.replace("|", "/") for x in r))
+        det = sum(1 for r in rows if r[4].startswith("detected"))
+        fh.write("\n%d seeds, %d detected, %d not statically detectable, %d missed.\n" % (
+            len(rows), det, sum(1 for r in rows if r[4].startswith("not statically")), sum(1 for r in rows if r[4] == "MISSED")))
+        for sid in sorted(os.listdir(SEEDED)):
+            mp = os.path.join(SEEDED, sid, "meta.json")
+            if os.path.exists(mp):
+                m = json.load(open(mp))
+                if m.get("not_statically_detectable"):
+                    fh.write("\n* %s: %s\n" % (sid, m["not_statically_detectable"]))
+
+
 def main(argv):
     if len(argv) >= 4 and argv[1] == "import":
         r = confirm(argv[2], argv[3])
@@ -128,6 +161,10 @@ def main(argv):
             own = meta.get("property")
             print("%-8s %-9s own=%s %s %s" % (sid, "DETECTED" if fired else ("ERROR" if fired is None else "missed"), own,
                                              "; ".join("%s:%s" % (p, ",".join(k)) for p, k in (fired or {}).items())[:300], err[:200]))
+        write_results()
+        return 0
+    if len(argv) >= 2 and argv[1] == "results":
+        write_results()
         return 0
     print(__doc__)
     return 2
